@@ -745,6 +745,17 @@ class Probe:
                 cont[key] = None
                 return cur
         recv = self.ev(e["recv"], env)
+        # a method a crate trait gives to a std type (`impl SymbolicLetter for char { fn mode_in(self, ..) }`): looked into,
+        # with `self` bound to the receiver — chosen by the kind of value the receiver is
+        if not isinstance(recv, Opq):
+            kind = "char" if isinstance(recv, str) and len(recv) == 1 else "str" if isinstance(recv, str) else "int" if isinstance(recv, int) and not isinstance(recv, bool) else "list" if isinstance(recv, list) else None
+            if kind is not None:
+                want = {"char": ("char",), "str": ("str", "String", "&str"), "int": ("u8", "u16", "u32", "u64", "usize", "i32", "i64"), "list": ("Vec", "[")}[kind]
+                cands = [f_ for f_ in self.f.fns.values() if not f_.test and f_.name == m and f_.impl is not None and f_.impl.get("trait") and norm_ty(f_.impl["trait"]).split("<")[0].split("::")[-1] in self.f.traits and f_.node.get("self") is not None and (norm_ty(f_.impl["self_ty"]).lstrip("&").split("<")[0] in want or (kind == "list" and norm_ty(f_.impl["self_ty"]).lstrip("&").startswith(("Vec<", "["))))]
+                if kind == "str" and len(recv) == 1:
+                    pass
+                if len(cands) == 1:
+                    return self.invoke(cands[0], recv, [self.ev(a, env) for a in e["args"]])
         if m in ("unwrap", "expect") and (recv is None or (isinstance(recv, tuple) and recv and recv[0] in ("some", "ok", "err"))):
             if recv is None or recv[0] == "err":
                 raise Panic("%s() on %s" % (m, "None" if recv is None else "Err"))
